@@ -35,7 +35,14 @@ def one_case(ctx, kind, inp, inp2, user_seed, check_model=True):
         inp2 = dict(inp2, iface_table=inp["table"], reuse_iface=inp["reuse_iface"])
         presv.IFACES.pop(inp["reuse_iface"], None)
         ctx.count("reused_interface_object")
-    inp2_fresh = {k: v for k, v in inp2.items() if k != "reuse_iface"}
+        if user_seed % 10 == 2 or inp.get("reuse_gen"):
+            # ... and the generator object itself, constructed when the output directory did not exist yet
+            inp = dict(inp, reuse_gen=inp["reuse_iface"])
+            inp2 = dict(inp2, reuse_gen=inp["reuse_iface"])
+            for k in [k for k in presv.GENS if k[0] == inp["reuse_gen"]]:
+                presv.GENS.pop(k)
+            ctx.count("reused_generator_object")
+    inp2_fresh = {k: v for k, v in inp2.items() if k not in ("reuse_iface", "reuse_gen")}
     with scratch() as d:
         out = os.path.join(d, "out")
         ref = os.path.join(d, "ref")
@@ -140,6 +147,8 @@ def run(ctx):
             for _ in range(ctx.rng.randint(1, 3)):
                 inp2 = presv.mutate_input(ctx.rng, kind, inp2)
             user_seed = ctx.rng.randint(0, 1 << 30)
+            if i == 1 and kind in ("py", "cs", "cpp"):
+                user_seed = user_seed - user_seed % 10 + 2      # one case per state-machine back end keeps interface AND generator object
             res = one_case(ctx, kind, inp, inp2, user_seed)
             ctx.case((kind, json.dumps(inp, sort_keys=True), json.dumps(inp2, sort_keys=True), user_seed), nontrivial=(res != "trivial"))
             ctx.count("e2e_" + kind)
